@@ -6,4 +6,14 @@
 
 package tree
 
+import "github.com/issue9/mux/v9/types"
+
 func (tree *Tree[T]) vhook(string, bool) {}
+
+func (tree *Tree[T]) vtraceAdd(string, []string) {}
+
+func (tree *Tree[T]) vtraceOp(string, string, []string) {}
+
+func (tree *Tree[T]) vtraceEnter(*types.Context) {}
+
+func (tree *Tree[T]) vtraceServe(*types.Context, string, types.Node, bool) {}
